@@ -8,6 +8,7 @@ pub mod c09;
 pub mod c10;
 pub mod c08;
 pub mod c11;
+pub mod c15;
 pub mod c12;
 
 pub type ReplayResult = Result<(bool, String), String>;
@@ -20,6 +21,7 @@ pub fn run(prop: &str, ctx: &Ctx) -> Option<Report> {
         "C10" => Some(c10::run(ctx)),
         "C08" => Some(c08::run(ctx)),
         "C11" => Some(c11::run(ctx)),
+        "C15" => Some(c15::run(ctx)),
         "C12" => Some(c12::run(ctx)),
         _ => None,
     }
@@ -33,6 +35,7 @@ pub fn replay(prop: &str, ctx: &Ctx, case: &Value) -> ReplayResult {
         "C10" => c10::replay(ctx, case),
         "C08" => c08::replay(ctx, case),
         "C11" => c11::replay(ctx, case),
+        "C15" => c15::replay(ctx, case),
         "C12" => c12::replay(ctx, case),
         _ => Err(format!("no replay for property {}", prop)),
     }
